@@ -44,8 +44,8 @@ class LinkD:
 class BlockD:
     def __init__(self,kind,body,sigs): self.kind=kind; self.body=body; self.sigs=list(sigs)
 class FileD:
-    def __init__(self,step,prefix_of,block,parsable=True): self.step=step; self.prefix_of=prefix_of; self.block=block; self.parsable=parsable
-    def fname(self): return '%s.%s.link'%(self.step,keyid_str(self.prefix_of)[:8])
+    def __init__(self,step,prefix_of,block,parsable=True,short_raw=None): self.step=step; self.prefix_of=prefix_of; self.block=block; self.parsable=parsable; self.short_raw=short_raw
+    def fname(self): return '%s.%s.link'%(self.step,self.short_raw if self.short_raw is not None else keyid_str(self.prefix_of)[:8])
 
 def keyid_str(k): return UNKNOWN_KEYID if k==UNKNOWN else pool_keyid(k)
 
@@ -196,5 +196,5 @@ def conc_scenario(m,layout_block,caller_keys,dirs,now,step_name=None,repeat=12):
     else: ns=now
     return {'kind':'verify','now_secs':ns,'caller_keys':[{'key':k,'label':l} for k,l in caller_keys],'step_name':step_name,
             'layout':conc_block(layout_block,m),
-            'dirs':[{'path':[[s,k] for s,k in d],'files':[{'step':f.step,'prefix_of':f.prefix_of,'parsable':f.parsable,'block':conc_block(f.block,m)} for f in files]} for d,files in dirs.items()],
+            'dirs':[{'path':[[s,k] for s,k in d],'files':[dict({'step':f.step,'prefix_of':f.prefix_of,'parsable':f.parsable,'block':conc_block(f.block,m)},**({'short_raw':f.short_raw} if f.short_raw is not None else {})) for f in files]} for d,files in dirs.items()],
             'repeat':repeat}
